@@ -169,6 +169,27 @@ theorem replicate_candidates_spec (closestK : List Peer) (range : Option Nat) :
   unfold replicateCandidates getPeersInRange
   cases range <;> simp [within, inRangeLe]
 
+/-- Client-side closest-peer selection: the caller's own id never counts. The result is the
+`CLOSE_GROUP_SIZE + CLOSE_GROUP_SIZE/2` nearest of the *other* peers, ascending, and `NotEnoughPeers` is
+reported exactly when fewer than `CLOSE_GROUP_SIZE` other peers are known. -/
+theorem client_close_group_spec (ps : List Peer) (selfId : Nat) :
+    closeGroupSelect ps selfId true = sortPeersByKey (ps.filter (fun p => p.1 != selfId)) expandedCloseGroup ∧
+    (closeGroupSelect ps selfId true = none ↔ (ps.filter (fun p => p.1 != selfId)).length < closeGroupSize) ∧
+    (∀ r, closeGroupSelect ps selfId true = some r → ∀ p ∈ r, p.1 ≠ selfId) := by
+  have h : closeGroupSelect ps selfId true = sortPeersByKey (ps.filter (fun p => p.1 != selfId)) expandedCloseGroup := by
+    simp [closeGroupSelect, clientStripsSelfBeforeSort]
+  refine ⟨h, by rw [h, sort_err_iff_few], ?_⟩
+  intro r hr p hp
+  rw [h] at hr
+  obtain ⟨_, _, hperm, _⟩ := sort_is_closest_prefix _ _ _ hr
+  have : p ∈ ps.filter (fun p => p.1 != selfId) := hperm.subset (List.mem_append_left _ hp)
+  simpa using (List.mem_filter.mp this).2
+
+/-- A node's own selection (`client = false`) is the plain sorted prefix of what the network returned. -/
+theorem node_close_group_spec (ps : List Peer) (selfId : Nat) :
+    closeGroupSelect ps selfId false = sortPeersByKey ps expandedCloseGroup := by
+  simp [closeGroupSelect, clientStripsSelfBeforeSort]
+
 /-! ## Non-vacuity -/
 
 example : convert 0 = 0 := convert_is_identity 0 (by decide)
@@ -194,3 +215,5 @@ end SafeNet.Props.C11
 #print axioms SafeNet.Props.C11.closest_range_preferred
 #print axioms SafeNet.Props.C11.closest_num_sorted_prefix
 #print axioms SafeNet.Props.C11.replicate_candidates_spec
+#print axioms SafeNet.Props.C11.client_close_group_spec
+#print axioms SafeNet.Props.C11.node_close_group_spec
